@@ -14,6 +14,7 @@ CONSTANTS Prop, Full
 \* frames by hole sort
 EHole == {f \in AllFrames : f.in = "E"}
 SHole == {f \in AllFrames : f.in = "S"}
+SimpleHole == {f \in AllFrames : f.in = "Simple"}
 QuickE == {f \in EHole :
              \/ f.k \in {"E.Add", "E.Assign", "E.Not", "E.Parenthesis", "S.Return", "S.If", "E.Power", "E.PreIncrement", "CP.VariableDefinition",
                           "SUP.VariableDefinition"} /\ f.hp = 1
@@ -51,6 +52,9 @@ ExprFamily(insts) ==
                    : f \in RotatingFrames(i)} : i \in {x \in insts : x.sort = "E"}}
     \cup {L(i.label \o "@stmt/" \o h, HostFile(h, <<ExprStmt(i.tree)>>)) : i \in {x \in insts : x.sort = "E"}, h \in HostsUsed}
     \cup {L(i.label \o "@free", FreeFile(<<ExprStmt(i.tree)>>)) : i \in {x \in insts : x.sort = "E"}}
+    \* as the initialisation / update part of a for statement (with and without condition, with and without body)
+    \cup UNION {{L(i.label \o "@" \o f.k \o "." \o ToString(f.hs) \o "." \o ToString(f.hp) \o "/simple" \o ToString(Len(f.c[2])) \o ToString(Len(f.c[4])),
+                    Place(f, ExprStmt(i.tree), "function")) : f \in SimpleHole} : i \in {x \in insts : x.sort = "E"}}
 StmtFamily(insts) ==
     UNION {UNION {{L(i.label \o "@" \o f.k \o "." \o ToString(f.hs) \o "." \o ToString(f.hp) \o "/" \o h, Place(f, i.tree, h))
                       : h \in HostsFor(f)} : f \in SFramesUsed}
